@@ -627,10 +627,12 @@ func c18RunCase(out *zzverif.Out, c *c18Case, fix bool) {
 	kp, km := "", ""
 	expTable := "0"
 	var cumF []float32 // cumulative sums of the filtered list (only when the guard holds)
+	var stage *c18Stage
 	var baseFlags []string
 	haveBase := false
 	if s.temperature != 0 {
 		W := append([]token(nil), L...)
+		lv0 := c18Vals(W)
 		shifted := true
 		if fix {
 			shifted = c18Shift(W)
@@ -645,6 +647,10 @@ func c18RunCase(out *zzverif.Out, c *c18Case, fix bool) {
 			expTable = c18ExpTable(sv)
 			softmax(W)
 			pv := c18Vals(W)
+			stage = &c18Stage{pv: pv, ok: !c18HasNaN(pv)}
+			for _, t := range W {
+				stage.ids = append(stage.ids, t.id)
+			}
 			if small {
 				out.Case(fmt.Sprintf("softmax %s %s", c18FList(sv), expTable), c18Join(pv))
 			}
@@ -672,6 +678,9 @@ func c18RunCase(out *zzverif.Out, c *c18Case, fix bool) {
 				out.Count("contract_guard")
 			} else {
 				var flags []string
+				if fix && !c18ScaleOK(lv0, lv) {
+					flags = append(flags, "shift")
+				}
 				if !c18ScaleOK(lv, sv) {
 					flags = append(flags, "scale")
 				}
@@ -749,7 +758,7 @@ func c18RunCase(out *zzverif.Out, c *c18Case, fix bool) {
 	}
 
 	// ---- L2: the property on the real result
-	c18L2(out, c, &s, res, line)
+	c18L2(out, c, &s, res, line, stage)
 
 	// ---- the same call with chosen random numbers (a fixed rand.Source): r = 0, the largest r,
 	// and r whose product with the total hits a cumulative sum exactly (the `<` of the walk)
@@ -780,7 +789,7 @@ func c18RunCase(out *zzverif.Out, c *c18Case, fix bool) {
 			op := fmt.Sprintf("sample %d %d %s %d %s %s %s %s %s", fixFlag, preFlag, c18Bits(s.temperature), s.topK,
 				c18Bits(s.topP), c18Bits(s.minP), c18Bits(rr), tokList.String(), expTable)
 			out.Case(op, fmt.Sprintf("%s kt=%d kp=%s km=%s c=%s", res3.head, kt, kp, km, c18Status(baseFlags, cumF, rr)))
-			c18L2(out, c, &s3, res3, line+fmt.Sprintf(" # crafted r=%d/2^24", k))
+			c18L2(out, c, &s3, res3, line+fmt.Sprintf(" # crafted r=%d/2^24", k), stage)
 		}
 	}
 }
@@ -805,7 +814,7 @@ func c18Status(base []string, cum []float32, r float32) string {
 	return "bad:" + strings.Join(flags, ",")
 }
 
-func c18L2(out *zzverif.Out, c *c18Case, s *Sampler, res c18Result, line string) {
+func c18L2(out *zzverif.Out, c *c18Case, s *Sampler, res c18Result, line string, st *c18Stage) {
 	n := len(c.logits)
 	if res.pnc != nil {
 		out.L2("panic", line, fmt.Sprint(res.pnc))
@@ -900,42 +909,53 @@ func c18L2(out *zzverif.Out, c *c18Case, s *Sampler, res c18Result, line string)
 	if larger >= k {
 		out.L2("not-in-topk", line, fmt.Sprintf("id=%d strictly-larger=%d k=%d", res.id, larger, k))
 	}
-	// probabilities over the k largest values, in float64 from the float32-scaled logits
-	tt := max(temp, 1e-7)
-	sc := make([]float64, n)
-	for i, v := range c.logits {
-		sc[i] = float64(v / tt)
-	}
-	sorted := append([]float64(nil), sc...)
-	sort.Sort(sort.Reverse(sort.Float64Slice(sorted)))
-	sorted = sorted[:k]
-	m := sorted[0]
-	if math.IsInf(m, 0) {
-		out.Count("l2_membership_skipped_inf")
+	// top-p / min-p: the filter sets are DEFINED on the float32 probabilities the real softmax
+	// produced (bit patterns, in the order the real topK produced), with the float32 comparisons of
+	// the property itself — no re-derivation of the probabilities with another rounding:
+	//   min-p set = { t : not (p_t < maxp * minP) },  maxp = the largest probability
+	//   top-p set = { t at position i : not (p_0 + ... + p_{i-1} > topP) }   (everything if topP == 1)
+	if st == nil || !st.ok {
+		out.Count("l2_membership_skipped_no_stage_values")
 		return
 	}
-	var total, before float64
-	x := float64(got / tt)
-	for _, v := range sorted {
-		e := math.Exp(v - m)
-		total += e
-		if v > x {
-			before += e
+	pos := -1
+	for i, id := range st.ids {
+		if id == res.id {
+			pos = i
+			break
 		}
 	}
-	ratio := math.Exp(x - m) // prob / maxprob
-	const tol = 1e-3
-	if ratio/total < 1e-30 {
-		out.Count("l2_membership_skipped_subnormal")
+	if pos < 0 {
+		out.L2("not-in-topk", line, fmt.Sprintf("id=%d is not among the %d tokens the real topK returned", res.id, len(st.ids)))
 		return
 	}
 	out.Count("l2_membership_checked")
-	if float64(s.minP) > 0 && ratio < float64(s.minP)*(1-tol) {
-		out.L2("not-in-minp", line, fmt.Sprintf("id=%d prob/max=%g minP=%v", res.id, ratio, s.minP))
+	maxp := st.pv[0]
+	for _, v := range st.pv {
+		if v > maxp {
+			maxp = v
+		}
 	}
-	if s.topP < 1 && before/total > float64(s.topP)*(1+tol)+1e-6 {
-		out.L2("not-in-topp", line, fmt.Sprintf("id=%d mass-before=%g topP=%v", res.id, before/total, s.topP))
+	if th := maxp * s.minP; st.pv[pos] < th {
+		out.L2("not-in-minp", line, fmt.Sprintf("id=%d prob=%s (%g) < maxprob*minP=%s (%g)", res.id, c18Bits(st.pv[pos]), st.pv[pos], c18Bits(th), th))
 	}
+	if s.topP != 1 {
+		var before float32
+		for i := 0; i < pos; i++ {
+			before += st.pv[i]
+		}
+		if before > s.topP {
+			out.L2("not-in-topp", line, fmt.Sprintf("id=%d position=%d mass-before=%s (%g) > topP=%g", res.id, pos, c18Bits(before), before, s.topP))
+		}
+	}
+}
+
+// c18Stage carries the values the real transforms produced for one case: the ids in the order the
+// real topK returned them and the float32 probabilities after the real softmax.
+type c18Stage struct {
+	ids []int32
+	pv  []float32
+	ok  bool // no NaN among the probabilities
 }
 
 // reproducibility: the same seed gives the same sequence of tokens over a sequence of calls
